@@ -31,6 +31,13 @@ element of the trace and the invariant is checked AT that element (so it holds w
   handles.derived_shares_open_and_fn[int|slice] / handles.derived_carries_exactly_selected_row_groups[int|slice]
         pf[item]: new.open is self.open, new.fn is self.fn (identity), new.row_groups == list(self.row_groups[item]),
         and so is new.fmd.row_groups
+  handles.derived_inherits_parent_answers[int|slice].<key>   one obligation per key of the handle's PRIMARY state (read from the
+        source: keys of __getstate__'s dict + top-level `self.X =` of __init__: pandas_nulls, _base_dtype, tz, _columns_dtype ...):
+        pf[item].<key> IS the parent's value (identity / equal immutable) - a dropped or re-derived one is named;
+        .footer_fields_other_than_row_groups: the new footer is the parent's shallow copy with only row_groups assigned (schema,
+        created_by, key_value_metadata -> selfmade, _kvm, pandas_metadata, categories are the parent's)
+  handles.state_roundtrip_keeps_dtype_answers.<key>   the same per key for __setstate__(__getstate__()) (copy / pickle)
+  handles.dtype_table_not_rederived_when_inherited   the real _dtypes with _base_dtype set assigns neither _base_dtype nor tz
   handles.state_roundtrip_shares_open_fn_footer  object.__new__(ParquetFile).__setstate__(pf.__getstate__()) (what copy.copy and
         pickle do) has the parent's open, fn and footer (hence its row groups, by set_attrs.row_groups_follow_footer)
   count.derived_handle_counts_own_row_groups[int|slice].count / .info_rows / .info_row_groups / .len
@@ -1256,6 +1263,96 @@ def h_copy(eng, q, args, kw, node):
     return [(q, Custom(FMD(oid, o.h.root, copy_of=o.h.oid)))]
 
 
+CACHES = ("_statistics",)      # per-handle caches that must NOT be inherited (the parent's statistics are not the slice's)
+
+
+def handle_state_keys(funcs):
+    """the handle's PRIMARY state, read from the real source: the keys of the dict __getstate__ returns (the library's own
+    declaration of what a handle is) + every `self.X = ...` at the top level of __init__ (+ fn, assigned in every branch),
+    minus the footer (replaced by the copy carrying the selection) and the caches.  Everything else (schema, cats, file_scheme,
+    selfmade, dtypes, categories, _kvm, pandas_metadata ...) is re-derived by _set_attrs from these and the footer."""
+    keys = []
+    gs = funcs.get("ParquetFile.__getstate__")
+    if gs is not None:
+        for n in ast.walk(gs.tree):
+            if isinstance(n, ast.Return) and isinstance(n.value, ast.Dict):
+                keys += [k.value for k in n.value.keys if isinstance(k, ast.Constant) and isinstance(k.value, str)]
+    ini = funcs.get("ParquetFile.__init__")
+    if ini is not None:
+        for st in ini.tree.body:
+            if isinstance(st, ast.Assign):
+                for t in st.targets:
+                    if isinstance(t, ast.Attribute) and isinstance(t.value, ast.Name) and t.value.id == "self":
+                        keys.append(t.attr)
+    keys.append("fn")
+    out = []
+    for k in keys:
+        if k not in out and k != "fmd" and k not in CACHES:
+            out.append(k)
+    return out
+
+
+def same_value(a, b):
+    """is b the parent's own value a?  object identity, the same opaque value, or equal immutables"""
+    if a is None or b is None:
+        return False
+    if a is b:
+        return True
+    if isinstance(a, Opaque) and isinstance(b, Opaque):
+        return a.tag == b.tag
+    if isinstance(a, NoneV) and isinstance(b, NoneV):
+        return True
+    if isinstance(a, Str) and isinstance(b, Str):
+        return a.s == b.s
+    if isinstance(a, (PyI, PyB)) and type(a) is type(b):
+        return z3.is_true(z3.simplify(a.z == b.z))
+    return False
+
+
+def describe(v):
+    if v is None:
+        return "<not set>"
+    if isinstance(v, NoneV):
+        return "None"
+    if isinstance(v, Opaque):
+        return "value " + str(v.tag)[:60]
+    if isinstance(v, Custom):
+        return type(v.h).__name__
+    return type(v).__name__
+
+
+def preset_parent_state(p, funcs):
+    """the parent's primary state: arbitrary values; its dtype table is cached (not None) once _set_attrs has run"""
+    for nm in handle_state_keys(funcs):
+        if ("pf0", nm) not in p.ghost["attrs"]:
+            p.ghost["attrs"][("pf0", nm)] = opaque_not_none(p, ("pf0", nm)) if nm == "_base_dtype" else Opaque(("pf0", nm))
+
+
+def m_setstate_recording(eng, q, pf, args, kw, node):
+    st = args[0] if args else kw.get("state")
+    if isinstance(st, Custom) and isinstance(st.h, DictLit):
+        q.ghost["state_dict:" + pf.oid] = dict(st.h.d)
+    return inline_method("__setstate__")(eng, q, pf, args, kw, node)
+
+
+def inherits_parent_answers(res, name, funcs, q, oid, parent="pf0", skip=("open", "fn")):
+    """one obligation per key of the primary state: the new handle's value IS the parent's"""
+    A = q.ghost["attrs"]
+    sd = q.ghost.get("state_dict:" + oid)
+    for k in handle_state_keys(funcs):
+        if k in skip:
+            continue
+        a, b = A.get((parent, k)), A.get((oid, k))
+        ok = same_value(a, b)
+        handed = None if sd is None else ("<key missing from the state dict>" if k not in sd else describe(sd[k]))
+        res.add(f"{name}.{k}", PROVED if ok else REFUTED,
+                None if ok else {"key": k, "parent": describe(a), "new_handle": describe(b), "handed_to___setstate__": handed,
+                                 "note": "dropped / re-derived: the derived handle answers (dtypes, nulls, tz, column index dtype) from its own "
+                                         "row groups or defaults instead of the parent's state"}, 0.0, "trace",
+                f"the new handle's {k} is the parent's own value (identity, or equal immutable): what the parent answers - its cached dtype "
+                "table incl. a dtypes= override, pandas_nulls, tz, the column-index dtype - is what the part answers")
+
+
 def getitem_paths(ctx, funcs, kind, mode="path"):
     """run the real __getitem__ (with __setstate__ / _set_attrs inline); -> eng, [(path, new oid)], want, item facts"""
     p, L0, N0, f0 = start_path(mode)
@@ -1272,8 +1369,9 @@ def getitem_paths(ctx, funcs, kind, mode="path"):
         so = SliceObj()
         item = Custom(so)
         want = ("slice", L0, so)
+    preset_parent_state(p, funcs)
     eng = mk_engine(funcs, f"__getitem__[{kind}]", handlers={"object.__new__": h_new, "copy.copy": h_copy},
-                    pf_methods={"__setstate__": inline_method("__setstate__"), "_set_attrs": inline_method("_set_attrs"),
+                    pf_methods={"__setstate__": m_setstate_recording, "_set_attrs": inline_method("_set_attrs"),
                                 "count": inline_method("count"), "_read_partitions": lambda e, q, pf, a, k, n: [(q, NONE)],
                                 "_dtypes": lambda e, q, pf, a, k, n: [(q, Opaque("dtypes"))]})
     pre_ok(ctx, p, f"__getitem__[{kind}]")
@@ -1323,6 +1421,17 @@ def run_derived(ctx, funcs, timeout, kind):
         pose(res, "handles.derived_carries_exactly_selected_row_groups" + tag, list(q.pc),
              z3.And(g_own, _same_selection(foot, want) if foot is not None else z3.BoolVal(False)), timeout,
              "new handle's row_groups AND its footer's row_groups == list(self.row_groups[item]): nothing kept from the parent, nothing lost")
+        inherits_parent_answers(res, "handles.derived_inherits_parent_answers" + tag, funcs, q, oid)
+        # everything _set_attrs re-derives (schema, created_by/selfmade, key_value_metadata -> _kvm / pandas_metadata / categories,
+        # version) comes from the footer: the copy differs from the parent's footer in row_groups ONLY
+        copied = isinstance(f, Custom) and isinstance(f.h, FMD) and f.h.copy_of == "fmd0"
+        others = sorted({w[1] for w in q.ghost["writes"] if copied and w[0] == f.h.oid and w[1] != "row_groups"})
+        diff = sorted(k[1] for k in A if copied and k[0] == "fmd0" and k[1] != "row_groups" and not same_value(A[k], A.get((f.h.oid, k[1]))))
+        okf = copied and not others and not diff
+        res.add("handles.derived_inherits_parent_answers" + tag + ".footer_fields_other_than_row_groups", PROVED if okf else REFUTED,
+                None if okf else {"is_copy_of_parent_footer": copied, "assigned_on_copy": others, "differing": diff}, 0.0, "trace",
+                "the new footer is a shallow copy of the parent's on which only row_groups is assigned: schema, created_by, "
+                "key_value_metadata (hence selfmade, _kvm, pandas_metadata, categories) are the parent's")
     if n_ret == 0:
         ctx.engine_error(f"__getitem__{tag}: no returning path")
     ctx.vacuity["covers"] += n_ret
@@ -1332,8 +1441,7 @@ def run_derived(ctx, funcs, timeout, kind):
 def run_state_roundtrip(ctx, funcs, timeout):
     res = Results()
     p, L0, N0, f0 = start_path("path")
-    for nm in ("pandas_nulls", "_base_dtype", "tz", "_columns_dtype"):
-        p.ghost["attrs"][("pf0", nm)] = Opaque(("pf0", nm))
+    preset_parent_state(p, funcs)
     eng = mk_engine(funcs, "__getstate__/__setstate__", handlers={"object.__new__": h_new},
                     pf_methods={"_set_attrs": inline_method("_set_attrs"), "_read_partitions": lambda e, q, pf, a, k, n: [(q, NONE)],
                                 "_dtypes": lambda e, q, pf, a, k, n: [(q, Opaque("dtypes"))]})
@@ -1359,9 +1467,39 @@ def run_state_roundtrip(ctx, funcs, timeout):
                     None if ok else {"identical": same, "row_groups_follow_footer": rg_ok, "parent_writes": str(parent_writes)}, 0.0, "trace",
                     "__setstate__(__getstate__()) on a fresh object: open, fn, fmd are the parent's objects, row_groups is the footer's list "
                     "(or [] when that is empty), nothing is assigned on the parent handle")
+            if isinstance(state, Custom) and isinstance(state.h, DictLit):
+                r.ghost["state_dict:pfN"] = dict(state.h.d)
+            inherits_parent_answers(res, "handles.state_roundtrip_keeps_dtype_answers", funcs, r, "pfN")
     if not n_ok:
         ctx.engine_error("state round trip: no returning path")
     ctx.vacuity["covers"] += n_ok
+    return res
+
+
+def run_dtypes_uses_inherited_table(ctx, funcs, timeout):
+    """the link between the inherited state and the ANSWER: with a dtype table present (_base_dtype is not None) the real _dtypes
+    neither re-derives it from the handle's own row groups nor re-assigns tz"""
+    res = Results()
+    p, L0, N0, f0 = start_path("path")
+    preset_parent_state(p, funcs)
+    eng = mk_engine(funcs, "_dtypes")
+    w0 = len(p.ghost["writes"])
+    n = 0
+    for q in eng.run("ParquetFile._dtypes", p, [Custom(HPF("pf0"))]):
+        if q.ctl[0] != "ret":
+            continue
+        n += 1
+        bad = sorted({w[1] for w in q.ghost["writes"][w0:] if w[0] == "pf0" and w[1] in ("_base_dtype", "tz", "pandas_nulls", "_columns_dtype")})
+        res.add("handles.dtype_table_not_rederived_when_inherited", PROVED if not bad else REFUTED, {"reassigned": bad} if bad else None, 0.0, "trace",
+                "_dtypes() on a handle whose _base_dtype is set (inherited from the parent / given as dtypes=) assigns neither _base_dtype nor tz: "
+                "the answer is a copy of that table + the category columns")
+    if n:
+        ctx.vacuity["covers"] += n
+    else:
+        ctx.engine_error("_dtypes: no returning path")
+    f = funcs.get("ParquetFile._dtypes")
+    if f is not None and any(isinstance(x, ast.Attribute) and isinstance(x.ctx, ast.Store) and x.attr == "_base_dtype" for x in ast.walk(f.tree)):
+        ctx.vacuity["must_fail_sat"] += 1      # the table IS re-derived (from the handle's own row groups) when nothing is inherited
     return res
 
 
@@ -1534,7 +1672,7 @@ def run_helpers(ctx, funcs, used):
 
 
 # =================================================================================================
-UNDER_CONTRACT_API = ("__init__", "_parse_header", "to_pandas", "read_row_group_file", "iter_row_groups", "head", "count", "_read_partitions",
+UNDER_CONTRACT_API = ("_dtypes", "__init__", "_parse_header", "to_pandas", "read_row_group_file", "iter_row_groups", "head", "count", "_read_partitions",
                       "__getitem__", "__getstate__", "__setstate__", "_set_attrs", "info", "__len__")
 UNDER_CONTRACT_CORE = ("read_row_group", "read_row_group_arrays", "read_col")
 
@@ -1584,6 +1722,7 @@ def check(ctx, timeout):
     for kind in ("int", "slice"):
         guarded(f"handles.derived[{kind}]", run_derived, ctx, funcs, timeout, kind)
     guarded("handles.state_roundtrip", run_state_roundtrip, ctx, funcs, timeout)
+    guarded("handles.dtypes", run_dtypes_uses_inherited_table, ctx, funcs, timeout)
     for kind in ("root", "int", "slice"):
         guarded(f"count.derived[{kind}]", run_counts, ctx, funcs, timeout, kind)
     guarded("frame.helpers", run_helpers, ctx, funcs, used)
